@@ -24,6 +24,9 @@ pub enum ProcCase {
         /// static oddities of the directory (dangling symlink, empty directory, …)
         #[serde(default)]
         extras: Vec<crate::world::Extra>,
+        /// run the binary as an ordinary user that owns the directory (permission bits bite)
+        #[serde(default)]
+        unprivileged: bool,
         cmd: String,
         /// arguments relative to the case directory
         args: Vec<String>,
@@ -101,7 +104,7 @@ fn viol(prop: &str, what: &str, detail: String) -> Violation {
 }
 
 fn run_cli_case(prop: &str, bin: &Path, dir: &Path, case: &ProcCase) -> Option<Violation> {
-    let ProcCase::Cli { label, files, extras, cmd, args, predicted_ok, predicted_codes, .. } = case else { return None };
+    let ProcCase::Cli { label, files, extras, unprivileged, cmd, args, predicted_ok, predicted_codes, .. } = case else { return None };
     let ws = dir.join("ws");
     std::fs::create_dir_all(&ws).ok()?;
     for (name, bytes) in files {
@@ -130,22 +133,34 @@ fn run_cli_case(prop: &str, bin: &Path, dir: &Path, case: &ProcCase) -> Option<V
             Extra::SymlinkToFile(n, target) => {
                 let _ = std::os::unix::fs::symlink(ws.join(target), ws.join(n));
             }
+            Extra::SocketFile(n) => {
+                let _ = std::os::unix::net::UnixListener::bind(ws.join(n));
+            }
+            Extra::Mode(..) => {}
         }
     }
     let tmp = dir.join("tmp");
     std::fs::create_dir_all(&tmp).ok()?;
+    if *unprivileged {
+        crate::seam::chown_tree(dir);
+    }
+    crate::world::apply_modes(&ws, extras);
     // stdout/stderr go to files so that a process that hangs can be killed without losing a reader
     let out_path = dir.join("stdout.txt");
     let err_path = dir.join("stderr.txt");
-    let mut child = Command::new(bin)
+    let mut command = Command::new(bin);
+    command
         .arg(cmd)
         .args(args.iter().map(|a| dir.join(a)))
         .env("TMPDIR", &tmp)
         .stdin(Stdio::null())
         .stdout(std::fs::File::create(&out_path).ok()?)
-        .stderr(std::fs::File::create(&err_path).ok()?)
-        .spawn()
-        .ok()?;
+        .stderr(std::fs::File::create(&err_path).ok()?);
+    if *unprivileged {
+        use std::os::unix::process::CommandExt;
+        command.uid(crate::seam::UNPRIVILEGED_ID).gid(crate::seam::UNPRIVILEGED_ID);
+    }
+    let mut child = command.spawn().ok()?;
     let status = match wait_with_deadline(&mut child, 60) {
         Some(s) => s,
         None => return Some(viol(prop, "hang", format!("`ironplcc {cmd} {args:?}` ({label}) did not terminate within 60 s and was killed"))),
